@@ -1088,8 +1088,8 @@ def fault_histories(seed, quick):
         upc = img[1]
         ops = prologue() + [O('open_file', d='d0', name='A.BIN', mode='Create', as_='f0'), O('write', f='f0', n=upc + 1), O('close_file', f='f0'), O('close_dir', d='d0'),
                             O('close_volume', v='v0'), O('open_volume', idx=0, as_='v1'), O('open_root', v='v1', as_='d1'), O('iterate', d='d1'),
-                            O('open_root', v='v0', as_='d2'), O('iterate', d='d2')]
-        add('FV-' + gname, img, ops, lim=(4, 4, 2))
+                            O('label', v='v0'), O('label', v='v1')]
+        add('FV-' + gname, img, ops, lim=(2, 3, 4))
     # writes through the embedded-io traits that have to extend the chain (write, write_all semantics of the wrapper)
     for gname in ['G16a', 'G32a']:
         img = image_of(gname, tree='T0', nfree=4)
